@@ -412,3 +412,37 @@ def overloaded_operands(rng):
     out += ["x = %d" % rng.choice([5, 300, -200])] + lines
     matching = 0 if rng.chance(0.2) else 1
     return ["main.asm"], {"main.asm": ("\n".join(out) + "\n").encode()}, "overloaded", matching
+
+
+BANK_UNKNOWN = ["address", "length", "output", "pad", "readonly", "mirror", "origin", "width", "align", "start", "end_", "filler", "bank", "page", "rw", "zz"]
+
+
+def bankdef_fields(rng):
+    """`#bankdef` blocks with 2..6 UNKNOWN fields (with and without values, sometimes a duplicated field), in the main
+    file or in an included one, one or two such blocks: every unknown field is reported (`invalid field`), in the order
+    written"""
+    def block(name):
+        valid = rng.shuffle(["bits = 8", "addr = 0x%x" % rng.below(0x10000), "size = 0x%x" % rng.range(1, 0x4000), "outp = %d" % (8 * rng.below(4)),
+                             "fill = true", "labelalign = 16"])[:rng.range(0, 4)]
+        unk = []
+        for f in rng.shuffle(BANK_UNKNOWN)[:rng.range(2, 6)]:
+            unk.append(f if rng.chance(0.35) else "%s = %s" % (f, rng.choice(["2", "0x4000", "true", "1 + 1"])))
+        fields = rng.shuffle(valid + unk)
+        if rng.chance(0.2):
+            fields.insert(rng.below(len(fields) + 1), rng.choice(fields))          # a duplicated field
+        sep = rng.choice(["\n", "\n", ", "])
+        if sep == "\n":
+            return ["#bankdef %s" % name, "{"] + ["    " + f for f in fields] + ["}"]
+        return ["#bankdef %s { %s }" % (name, ", ".join(fields))]
+    out = ["#ruledef", "{", "    halt => 0x55", "}"]
+    files = {}
+    in_include = rng.chance(0.4)
+    blocks = block("rom") + (block("ram") if rng.chance(0.4) else [])
+    if in_include:
+        files["banks.asm"] = ("\n".join(blocks) + "\n").encode()
+        out.append('#include "banks.asm"')
+    else:
+        out += blocks
+    out += ["halt", "#d8 1, 2"]
+    files["main.asm"] = ("\n".join(out) + "\n").encode()
+    return ["main.asm"], files, "bankdef-fields"
